@@ -96,6 +96,12 @@ func cteHeader(cte string) string {
 	case "b64", "b64garbage", "b64cut1", "b64cut2", "b64cut3":
 		return "Content-Transfer-Encoding: base64\r\n"
 	}
+	if cte == "cteparen" {
+		return "Content-Transfer-Encoding: 7bit )(\r\n"
+	}
+	if cte == "ctecomment" {
+		return "Content-Transfer-Encoding: 7bit (as (nested) comments go) \r\n"
+	}
 	return "Content-Transfer-Encoding: x-unknown-encoding\r\n"
 }
 
